@@ -145,7 +145,9 @@ func (f *pkFix) call(m string, rng *rand.Rand, g int) bool {
 		}
 	case "AddValidator":
 		// the next index of the parent (same for both goroutines), a known pair, or a fork-out with a private key
-		switch rng.Intn(5) {
+		switch rng.Intn(7) {
+		case 5, 6: // far beyond the end with an unknown key: goes all the way to the locked append section and is refused there
+			h.AddValidator(common.ValidatorIndex(f.n+5), keyBytes[40+rng.Intn(8)])
 		case 4: // the next index of the forked-out child (its own key pool)
 			f.child.AddValidator(common.ValidatorIndex(f.childLen), keyBytes[8+f.childLen])
 		case 0:
@@ -193,13 +195,20 @@ func newPoolFix(comp string, full bool) func(rng *rand.Rand) fixture {
 		ctx := context.Background()
 		// a little content, so that iteration / pruning have something to touch
 		for i := 0; i < 2; i++ {
-			f.s.ap.AddAttestation(ctx, f.att(rng, i), committeeIdx(i, 0, 3))
-			f.s.vep.AddVoluntaryExit(ctx, &phase0.SignedVoluntaryExit{Message: phase0.VoluntaryExit{ValidatorIndex: common.ValidatorIndex(50 + i)}})
-			ps := &phase0.ProposerSlashing{}
-			ps.SignedHeader1.Message.ProposerIndex = common.ValidatorIndex(50 + i)
-			f.s.psp.AddProposerSlashing(ctx, ps)
+			switch comp {
+			case "AttestationPool":
+				f.s.ap.AddAttestation(ctx, f.att(rng, i), committeeIdx(i, 0, 3))
+			case "VoluntaryExitPool":
+				f.s.vep.AddVoluntaryExit(ctx, &phase0.SignedVoluntaryExit{Message: phase0.VoluntaryExit{ValidatorIndex: common.ValidatorIndex(50 + i)}})
+			case "ProposerSlashingPool":
+				ps := &phase0.ProposerSlashing{}
+				ps.SignedHeader1.Message.ProposerIndex = common.ValidatorIndex(50 + i)
+				f.s.psp.AddProposerSlashing(ctx, ps)
+			}
 		}
-		f.s.scp.Reset(5)
+		if comp == "SyncCommitteePool" {
+			f.s.scp.Reset(5)
+		}
 		return f
 	}
 }
@@ -296,6 +305,8 @@ func fixtureFor(comp string, full bool) func(rng *rand.Rand) fixture {
 	return nil
 }
 
+var pairCalls = 3
+
 func runPair(comp, a, b string, iters int, seed int64, single bool) int {
 	full := os.Getenv("CONC_FULL") == "1"
 	mk := fixtureFor(comp, full)
@@ -305,10 +316,10 @@ func runPair(comp, a, b string, iters int, seed int64, single bool) int {
 	}
 	rng := rand.New(rand.NewSource(seed))
 	for it := 0; it < iters; it++ {
-		f := mk(rng)
-		seeds := [2]int64{rng.Int63(), rng.Int63()}
+		seeds := [3]int64{rng.Int63(), rng.Int63(), rng.Int63()}
 		done := make(chan int, 1)
 		go func() {
+			f := mk(rand.New(rand.NewSource(seeds[2]))) // under the watchdog too: the set-up calls the component
 			if single {
 				r := rand.New(rand.NewSource(seeds[0]))
 				if !f.call(a, r, 0) {
@@ -333,7 +344,7 @@ func runPair(comp, a, b string, iters int, seed int64, single bool) int {
 					for atomic.LoadInt32(&start) == 0 {
 						runtime.Gosched()
 					}
-					for k := 0; k < 3; k++ {
+					for k := 0; k < pairCalls; k++ {
 						if !f.call(m, r, g) {
 							atomic.StoreInt32(&unknown, 1)
 							return
